@@ -2,7 +2,8 @@
 real plumpy specs, canonical rendering, and the independent reference (a transcription of the declarative acceptance /
 defaults rule of C11, not a call into plumpy's validate).
 
-value : ('A', ty, id) | ('D', [(key, value), ...])          ty 0 -> int(id), ty 1 -> float(id) + 0.5; ('A', 0, 0) is the falsy 0
+value : ('A', ty, id) | ('D', [(key, value), ...]) | ('F', [...])   ty 0 -> int(id), ty 1 -> float(id) + 0.5; ('A', 0, 0) is the falsy 0;
+        'D' is a plain dict, 'F' an AttributesFrozendict (e.g. a namespace of another process's inputs passed on)
 port  : ('L', required, type, default, callable, validator)
       | ('N', required, type, default, dynamic, populate_defaults, validator, [(name, port), ...])
 top   : (required, dynamic, type, validator)                  attributes of spec.inputs / spec.outputs
@@ -20,7 +21,11 @@ PROBE = '__probe__'
 def to_py(v):
     if v[0] == 'A':
         return int(v[2]) if v[1] == 0 else float(v[2]) + 0.5
-    return {k: to_py(x) for k, x in v[1]}
+    d = {k: to_py(x) for k, x in v[1]}
+    if v[0] == 'F':
+        from plumpy import utils
+        return utils.AttributesFrozendict(d)
+    return d
 
 
 def atom_ty(x):
@@ -65,7 +70,7 @@ def show_ref(v):
 def enc_v(v):
     if v[0] == 'A':
         return f'A {v[1]} {v[2]}'
-    return ('D %d %s' % (len(v[1]), ' '.join(f'{k} {enc_v(x)}' for k, x in v[1]))).strip()
+    return ('%s %d %s' % (v[0], len(v[1]), ' '.join(f'{k} {enc_v(x)}' for k, x in v[1]))).strip()
 
 
 def mentions_py(value, n):
@@ -409,6 +414,13 @@ def gen_good_items(rng, attrs, sub, avoid):
             items.append((k, v))
     rng.shuffle(items)
     return items
+
+
+def freeze_some(rng, v, p=0.5):
+    """turn some of the mappings of a value into frozen ones"""
+    if v[0] == 'A':
+        return v
+    return ('F' if rng.random() < p else v[0], [(k, freeze_some(rng, x, p)) for k, x in v[1]])
 
 
 def mutate_items(rng, sub, items, depth=0):
